@@ -46,7 +46,9 @@ class C07(Check):
         env.state["k"] = 0
 
     def strategy(self, env):
-        return SS.history(3, 4, aes=True)
+        from hypothesis import strategies as st
+
+        return st.tuples(SS.history(3, 4, aes=True), st.sampled_from([None, None, None, 5000, 300000])).map(lambda t: dict(t[0], prefill=t[1]))
 
     def examples(self, env):
         return env.n(140, 2500)
@@ -68,6 +70,15 @@ class C07(Check):
                         entries.insert(n // 2, {"how": "write-dir", "data": ["hex", ""], "mode": 0o755, "mtime_ns": 1600000000 * 10 ** 9 + 123456700,
                                                 "name": "dir%d" % n})
                     yield {"sessions": [{"filters": [{"id": G.F_COPY}], "entries": entries}], "header": header, "target": "bytesio", "password": None}
+        # member sizes exactly at the 2- and 3-byte NUMBER boundaries, alone and as the sum of a solid block; first session opened
+        # with 'a' on a garbage file
+        for sizes in ([16384], [10000, 6384], [16383], [16385], [127, 1], [128], [2097152]):
+            for prefill in (None, 40000):
+                i += 1
+                if env.mine(i):
+                    ents = [{"how": "writestr", "data": ["gen", "random", n, 40 + j], "mode": 0o644, "mtime_ns": 10 ** 18, "name": "s%d" % j} for j, n in enumerate(sizes)]
+                    yield {"sessions": [{"filters": [{"id": G.F_COPY}], "entries": ents}], "header": "raw" if prefill else "encoded", "target": "path", "password": None,
+                           "prefill": prefill}
         # three-coder chains and BCJ/Delta chains, also appended onto another chain
         chains = [[{"id": G.F_DELTA, "dist": 3}, {"id": G.F_X86}, {"id": G.F_LZMA2, "preset": 1}], [{"id": G.F_X86}, {"id": G.F_LZMA2, "preset": 1}, {"id": G.F_AES}],
                   [{"id": G.F_X86}, {"id": G.F_BZIP2}, {"id": G.F_AES}], [{"id": G.F_ARM}, {"id": G.F_ZSTD, "level": 1}, {"id": G.F_AES}],
@@ -127,7 +138,16 @@ class C07(Check):
                     # password constant over the history: every session's chain ends in 7zAES
                     filters = filters + [{"id": G.F_AES}]
                 try:
-                    z = arch.open_write(tgt.for_write("w" if si == 0 else "a"), filters, pw, case["header"], mode="w" if si == 0 else "a")
+                    first_mode = "w"
+                    if si == 0 and case.get("prefill") and case["target"] in ("path", "file"):
+                        # the first session opens with 'a' a file that exists but is no archive (and is longer than the archive
+                        # will be): the documented fallback writes a new archive, of which no old byte may remain
+                        with open(tgt.path, "wb") as f0:
+                            f0.write(b"\x5a" * int(case["prefill"]))
+                        first_mode = "a"
+                        out.label("prefilled-non-archive")
+                    z = arch.open_write(tgt.for_write("w" if (si == 0 and first_mode == "w") else "a"), filters, pw, case["header"],
+                                        mode=first_mode if si == 0 else "a")
                 except UnsupportedCompressionMethodError:
                     out.label("rejected_config")
                     out.nontrivial = False
